@@ -60,7 +60,19 @@ class CallGraph:
         self.F = F
         self.cha_crates = cha_crates
         self.edges = {}       # fn id -> set(fn id)
-        self.kinds = {"direct": 0, "cha": 0, "fnptr": 0, "closure": 0, "fnref": 0, "drop": 0}
+        self.kinds = {"direct": 0, "cha": 0, "fnptr": 0, "closure": 0, "fnref": 0, "drop": 0, "bridge": 0}
+        # std-trait impls per workspace ADT (for calls into std generics that dispatch back)
+        ws_traits = set(F.traits.keys())
+        self.std_impls_of_adt = {}
+        self.fmt_impls = {"core::fmt::Display": [], "core::fmt::Debug": []}
+        for f in F.fns.values():
+            if f.impl and f.impl.get("trait") and f.impl["trait"] not in ws_traits:
+                if f.impl.get("self_adt"):
+                    self.std_impls_of_adt.setdefault(f.impl["self_adt"], []).append(f.id)
+                if f.impl["trait"] in self.fmt_impls:
+                    self.fmt_impls[f.impl["trait"]].append(f.id)
+        self._adt_names = sorted(F.adts.keys(), key=len, reverse=True)
+        self._bridge_cache = {}
         self.why = {}         # (src, dst) -> kind
         # impl index: trait item id -> [impl fn ids]
         self.impls_of_item = {}
@@ -136,10 +148,35 @@ class CallGraph:
                         self._add(out, f.id, did, "drop")
         return out
 
+    def _bridge(self, out, f, c):
+        """a call into a std generic instantiated with workspace types may call back into their
+        std-trait impls (Display via format_args!, From via into(), Iterator via adaptors, ...)"""
+        gid = c.get("id") or ""
+        if not gid.startswith(("core::", "alloc::", "std::", "hashbrown::")):
+            return
+        for a in (c.get("rargs") or c.get("args") or []):
+            key = a
+            hit = self._bridge_cache.get(key)
+            if hit is None:
+                hit = []
+                for name in self._adt_names:
+                    if name in a:
+                        hit.extend(self.std_impls_of_adt.get(name, ()))
+                self._bridge_cache[key] = hit
+            for iid in hit:
+                self._add(out, f.id, iid, "bridge")
+            # a bare type parameter formatted through format_args!
+            if _is_param(a) and "fmt::rt::Argument" in gid:
+                tr = "core::fmt::Display" if "display" in gid else "core::fmt::Debug" if "debug" in gid else None
+                for iid in self.fmt_impls.get(tr, ()):  # CHA over the crate scope
+                    if self.cha_crates is None or self.F.fns[iid].crate in self.cha_crates:
+                        self._add(out, f.id, iid, "bridge")
+
     def _fn_target(self, out, f, c, kind):
         F = self.F
         rid = c.get("rid")
         gid = c.get("id")
+        self._bridge(out, f, c)
         if rid and rid in F.fns and rid != gid:
             self._add(out, f.id, rid, kind)
             return
